@@ -352,6 +352,58 @@ def check_history(tkey, hist):
     return vs, "ok"
 
 
+# ----------------------------------------------------------------------------- failed constructors
+def failed_constructors():
+    """A constructor call that is REFUSED (an out-of-range keyword) must leave no trace: a default object built
+    afterwards is pristine, and objects handed to the refused call (an embedded project that already belongs to another
+    MetaModule) still belong to their owner and still work."""
+    import rv.api as rv
+
+    vs, n = [], 0
+    for tkey, t in spec.types().items():
+        cls = getattr(rv.m, tkey)
+        bad = next((c for c in t.controllers if c.kind in ("range", "compact", "no_offset")), None)
+        if bad is None:
+            continue
+        n += 1
+        case = {"failed_ctor": tkey}
+        pr = pristine(tkey)
+        owner = inner = o_owner = None
+        kw = {bad.attr: bad.max + 100000}
+        if tkey == "MetaModule":
+            owner = rv.m.MetaModule()
+            inner = owner.project.new_module(rv.m.Amplifier)
+            o_owner = observe_module(owner)
+            kw["project"] = owner.project
+        try:
+            cls(**kw)
+            continue            # accepting is C09's business, not an isolation matter
+        except Exception:
+            pass
+        now = observe_module(deviate.new_module(tkey))
+        d = S.diff(pr[0], now[0])
+        if d or now[1] != pr[1]:
+            vs.append(C.viol("default-object-changed", {"type": tkey, "op": "refused-constructor", "origin": "constructed-after",
+                                                        "what": C.first_diff_key(d) or "bytes"}, {"diff": S.diff_text(d)}, case))
+        if owner is not None:
+            if getattr(owner.project, "metamodule", owner) is not owner:
+                vs.append(C.viol("other-object-changed", {"type": tkey, "op": "refused-constructor", "origin": "owner-of-the-argument",
+                                                          "what": "project.metamodule"}, {}, case))
+            try:
+                again = observe_module(owner)
+                inner.volume = 7
+                inner.volume = 256
+            except Exception as e:
+                vs.append(C.viol("other-object-changed", {"type": tkey, "op": "refused-constructor", "origin": "owner-of-the-argument",
+                                                          "what": "unusable:" + type(e).__name__}, {"error": repr(e)[:200]}, case))
+                continue
+            d = S.diff(o_owner[0], again[0])
+            if d or again[1] != o_owner[1]:
+                vs.append(C.viol("other-object-changed", {"type": tkey, "op": "refused-constructor", "origin": "owner-of-the-argument",
+                                                          "what": C.first_diff_key(d) or "bytes"}, {"diff": S.diff_text(d)}, case))
+    return n, vs
+
+
 # ----------------------------------------------------------------------------- containers
 def container_histories():
     return [
@@ -474,12 +526,21 @@ def check_container(hist):
 
 
 def run_case(case):
+    if "failed_ctor" in case:
+        return [v for v in failed_constructors()[1] if v["case"] == case]
     if "container" in case:
         return check_container(case["container"])
     return check_history(case["type"], case["history"])[0]
 
 
 def _task(t):
+    if t[0] == "failed_ctors":
+        r = C.new_result()
+        n, vs = failed_constructors()
+        r["evals"] = n
+        r["violations"] = vs
+        r["sample"] = {"failed_ctor": "MetaModule"}
+        return r
     r = C.new_result()
     if t[0] == "containers":
         for h in container_histories():
@@ -511,7 +572,7 @@ def run(ctx):
     treeenv.setup()
     for k in deviate.type_keys():
         pristine(k)  # computed in the parent BEFORE the pool forks and before any mutation
-    tasks = [("containers",)]
+    tasks = [("containers",), ("failed_ctors",)]
     total = 0
     for k in deviate.type_keys():
         devs = deviate.module_devs(k, ctx.seed, spikes="few", opt8="few")
